@@ -761,6 +761,37 @@ func runStrScenario(sc strScenario) *strResult {
 				break
 			}
 			e.endWrite(&c.e, atoi(f[2]), func(m *[]byte) error { return c.st.WriteMessage(m) })
+		case "dseof":
+			// everything the client has written reaches the server's reader back to back, and the end
+			// of the connection right behind it (the link is cut first if it was not)
+			if sEnded {
+				ok = false
+				break
+			}
+			e.mu.Lock()
+			e.cut = true
+			frames := e.c2s
+			e.c2s = nil
+			for _, fr := range frames {
+				if strings.HasPrefix(fr.name, "u") {
+					e.uDelivered[fr.name] = true
+				}
+			}
+			e.mu.Unlock()
+			for _, fr := range frames {
+				if !feed(e.sfeed, feedItem{frame: fr.raw}) {
+					ok = false
+					break
+				}
+			}
+			if ok {
+				ok = feed(e.sfeed, feedItem{err: io.EOF})
+			}
+			if ok {
+				e.mu.Lock()
+				e.sEnded = true
+				e.mu.Unlock()
+			}
 		case "cwritebad":
 			// a message the body codec cannot encode: the write fails on the client, nothing is sent,
 			// the stream stays open and usable
@@ -1018,6 +1049,8 @@ func strCorpus() []strScenario {
 		mk("cut-keeps-prefix", "copen", "ds", "dc", "swrite 0 1", "swrite 0 2", "swrite 0 3", "cwrite 0 7", "cwrite 0 8", "cut 1 2", "dc", "dc", "ds", "cread 0", "cread 0", "cread 0", "sread 0", "sread 0", "ceof", "seof", "probe")
 		mk("cut-while-opening", "copen", "copen", "ds", "cut 0 0", "ceof", "seof", "probe")
 		mk("unencodable-write-leaves-the-stream-usable", "copen", "ds", "dc", "cwritebad 0", "swrite 0 1", "dc", "cread 0", "cwrite 0 2", "ds", "sread 0", "cwritebad 0", "swrite 0 3", "swrite 0 4", "dc", "dc", "cread 0", "cread 0", "cread 0", "probe")
+		mk("open-request-right-before-the-end", "copen", "ds", "dc", "sread 0", "copen", "copen", "dseof", "sread 1", "sread 2", "swrite 1 5", "ceof", "probe")
+		mk("burst-then-end", "copen", "ds", "dc", "cwrite 0 1", "cwrite 0 2", "copen", "cwrite 0 3", "dseof", "sread 0", "sread 0", "sread 0", "sread 0", "sread 1", "probe")
 		mk("close-races-read", "closerace 1500")
 		mk("failing-opens-next-to-calls", "badopens 400")
 		mk("close-after-end", "copen", "ds", "dc", "cut 0 0", "ceof", "cclose 0", "cread 0", "seof", "sread 0", "probe")
@@ -1077,6 +1110,9 @@ func genStrScenario(r *prng.R) strScenario {
 			sc.Actions = append(sc.Actions, fmt.Sprintf("cclose %d", s))
 		case x < 92:
 			sc.Actions = append(sc.Actions, fmt.Sprintf("sexit %d", s))
+		case x < 93 && cutAt < 0 && i > n/2:
+			sc.Actions = append(sc.Actions, "dseof")
+			cutAt = i
 		case x < 95 && cutAt >= 0 && i > cutAt:
 			sc.Actions = append(sc.Actions, []string{"ceof", "seof"}[r.Intn(2)])
 		default:
